@@ -559,8 +559,8 @@ func (st *hnState) callOrigins(call *ssa.Call, idx int, out map[string]bool, see
 	name := methodName(cc)
 	if cc.IsInvoke() && name == "Get" && strings.HasSuffix(cc.Value.Type().String(), "types.HostSet") {
 		// receiver must be the balancer's own hosts field
-		if _, f, _, ok := loadedField(cc.Value); ok && (f == "hosts" || f == "hostSet") {
-			out["HostSet.Get on own field "+f] = true
+		if why, ok := st.ownHostSet(cc.Value, 0); ok {
+			out["HostSet.Get on "+why] = true
 			return
 		}
 		out["BAD:HostSet.Get on a host set that is not the balancer's own field at "+st.c.pos(call.Pos())] = true
@@ -884,4 +884,41 @@ func onlyUnderOnce(fn *ssa.Function) bool {
 		}
 	})
 	return ok && used > 0
+}
+
+// ownHostSet: v is the balancer's own host-set field, or a parameter that every caller in the module
+// binds to such a field.
+func (st *hnState) ownHostSet(v ssa.Value, depth int) (string, bool) {
+	if _, f, _, ok := loadedField(v); ok && (f == "hosts" || f == "hostSet") {
+		return "own field " + f, true
+	}
+	if p, ok := v.(*ssa.Parameter); ok && depth < 3 {
+		parent := p.Parent()
+		pi := -1
+		for i, q := range parent.Params {
+			if q == p {
+				pi = i
+			}
+		}
+		n := 0
+		for fn := range st.c.all {
+			if fn.Pkg == nil || !strings.HasPrefix(fn.Pkg.Pkg.Path(), modPath) {
+				continue
+			}
+			for _, b := range fn.Blocks {
+				for _, in := range b.Instrs {
+					if ci, ok := in.(ssa.CallInstruction); ok && ci.Common().StaticCallee() == parent {
+						n++
+						if _, ok := st.ownHostSet(ci.Common().Args[pi], depth+1); !ok {
+							return "", false
+						}
+					}
+				}
+			}
+		}
+		if n > 0 {
+			return fmt.Sprintf("parameter %s bound to the caller's own host set at all %d call sites", p.Name(), n), true
+		}
+	}
+	return "", false
 }
